@@ -22,6 +22,28 @@ func (f File) customRecordTypes() map[string]struct{} {
 	return out
 }
 
+// enumSizes maps each enum name to the wire size of its underlying type.
+func (f File) enumSizes() map[string]uint8 {
+	out := make(map[string]uint8, len(f.Enums))
+	for _, en := range f.Enums {
+		out[en.Name] = fixedSizeTypes[en.SimpleType]
+	}
+	return out
+}
+
+// fixedSize reports the wire size of typ if every value of typ has the
+// same size: a fixed-size primitive or an enum.
+func (settings GenerateSettings) fixedSize(typ string) (uint8, bool) {
+	if sz, ok := fixedSizeTypes[typ]; ok {
+		return sz, true
+	}
+	if alias, ok := settings.importTypeAliases[typ]; ok {
+		typ = alias
+	}
+	sz, ok := settings.enumSizes[typ]
+	return sz, ok
+}
+
 func (f File) usedTypes() map[string]bool {
 	out := make(map[string]bool)
 	for _, st := range f.Structs {
